@@ -27,7 +27,7 @@ from pathlib import Path
 from typing import Any, Dict, List, Optional, Tuple
 
 ID = "C10"
-LEAN_MODULES = ["FaxVerif.C10.Theorems"]
+LEAN_MODULES = ["FaxVerif.C10.Theorems", "FaxVerif.C10.ExtTheorems", "FaxVerif.C10.TailTheorems"]
 LEAN_SOURCES = ["FaxVerif/C10", "FaxVerif/Generated/C10Tables.lean"]
 DRIVER = "FaxVerif/C10/Driver.lean"
 THEOREMS = [
@@ -68,6 +68,23 @@ THEOREMS = [
     "FaxVerif.C10.enum_first_definition_wins",
     "FaxVerif.C10.enum_dot_refused",
     "FaxVerif.C10.unknown_namespace_refused",
+    # extension: any total indirection, any namespace depth, process_metadata as a fold, tails
+    "FaxVerif.C10.accessText_chars",
+    "FaxVerif.C10.access_any_depth",
+    "FaxVerif.C10.shape_exact",
+    "FaxVerif.C10.nsObj_fullName_dotted",
+    "FaxVerif.C10.enum_qualified_any_depth",
+    "FaxVerif.C10.process_is_fold",
+    "FaxVerif.C10.process_eq_entries",
+    "FaxVerif.C10.process_ok_iff",
+    "FaxVerif.C10.md_defaults_own",
+    "FaxVerif.C10.declaration_local",
+    "FaxVerif.C10.declaration_order_free",
+    "FaxVerif.C10.finishTail_ofFin",
+    "FaxVerif.C10.runColT_ofFin",
+    "FaxVerif.C10.column_tail_typed_partial",
+    "FaxVerif.C10.col_tail_typed_partial",
+    "FaxVerif.C10.accepts_iff_tail",
 ]
 RULE = (
     "unit streams: type strings = (const?) base x 0..3 stars x blank patterns (exhaustive over a small alphabet, then random "
@@ -362,6 +379,25 @@ def impl_unit(req: Dict[str, Any]) -> Dict[str, Any]:
                 info = determine_type_mf(mk_terminal(req["parent"]), req["m"])
             fb = cw.fallbacks()
             return {"ok": {"rty": describe_rty(info.r_type), "deref": info.deref_depth}, "warn": len(fb) > 0}
+        if op == "enum_obj":
+            reset_globals()
+            e = ctyp.define_enum(".".join(req["ns"]), req["name"], [req["v"]])
+            depth, n = 0, e.ns
+            while n is not None and depth < 1000:
+                depth, n = depth + 1, n.parent_ns
+            return {"cpp": e.value_as_cpp(req["v"]), "full": str(e), "depth": depth}
+        if op == "mdlocal":
+            def registry(mds):
+                reset_globals()
+                process_metadata([{"metadata_type": "add_method_type_info", **md} for md in mds])
+                return {(t, m): {"rty": describe_rty(info.r_type), "deref": info.deref_depth} for t, ms in ctyp.g_method_type_dict.items() for m, info in ms.items()}
+
+            whole = registry(req["mds"])
+            items = []
+            for md in req["mds"]:
+                k = (md["type_string"], md["method_name"])
+                items.append({"alone": registry([md]).get(k), "inlist": whole.get(k)})
+            return {"items": items}
         if op == "enum":
             from func_adl_xAOD.atlas.xaod.query_ast_visitor import atlas_xaod_query_ast_visitor
 
@@ -379,7 +415,7 @@ def impl_unit(req: Dict[str, Any]) -> Dict[str, Any]:
     except Exception as e:
         return {"err": type(e).__name__}
     finally:
-        if op in ("mdreg", "mf", "enum"):
+        if op in ("mdreg", "mf", "enum", "enum_obj", "mdlocal"):
             reset_globals()
     raise ValueError(op)
 
@@ -523,6 +559,14 @@ def fin_text(fin: Dict[str, Any]) -> str:
         return ""
     if fin["k"] == "addOne":
         return " + 1"
+    if fin["k"] == "arith":
+        return f" {fin['op']} {fin['n']}"
+    if fin["k"] == "div":
+        return f" / {fin['n']}"
+    if fin["k"] == "cmp":
+        return f" {fin['op']} {fin['n']}"
+    if fin["k"] == "cmpConst":
+        return f" {fin['op']} " + ".".join(fin["path"])
     return " == " + ".".join(fin["path"])
 
 
@@ -1090,12 +1134,53 @@ def random_col(rng, world, force_undeclared: bool = False) -> Optional[Dict[str,
             fin = {"k": "addOne"}
     elif cur[0] == "val":
         s = cur[1]
-        if s["base"] in ARITH and rng.random() < 0.2:
-            fin = {"k": "addOne"}
+        if s["base"] in ARITH and rng.random() < 0.3:
+            fin = random_tail(rng, s["base"])
         elif world["enums"] and "::" in s["base"] and rng.random() < 0.6:
             e = next((x for x in world["enums"] if enum_cpp_type(x) == s["base"]), world["enums"][0])
-            fin = {"k": "eqConst", "path": e["ns"].split(".") + [e["name"], rng.choice(e["values"])]}
+            path = e["ns"].split(".") + [e["name"], rng.choice(e["values"])]
+            fin = {"k": "eqConst", "path": path} if rng.random() < 0.5 else {"k": "cmpConst", "op": rng.choice(["==", "!="]), "path": path}
     return {"steps": steps, "fin": fin}
+
+
+AOPS = ["+", "-", "*"]
+COPS = ["==", "!=", "<", "<=", ">", ">="]
+
+
+def random_tail(rng, base: str) -> Dict[str, Any]:
+    """A tail over an int/float/double value (inside `tailDomain`: no true division of a float)."""
+    r = rng.random()
+    if r < 0.3:
+        return {"k": "addOne"}
+    if r < 0.6:
+        return {"k": "arith", "op": rng.choice(AOPS), "n": rng.choice([1, 2, 3, 10])}
+    if r < 0.75 and base != "float":
+        return {"k": "div", "n": rng.choice([2, 3, 4])}
+    return {"k": "cmp", "op": rng.choice(COPS), "n": rng.choice([0, 1, 5])}
+
+
+def tail_worlds(tier: str):
+    """Directed: one declared arithmetic method (every base x declared tree_type x deref_count) ending in every tail —
+    arithmetic with a literal, true division, every comparison — directly and under a loop; an enum-typed method (nested
+    namespace) compared with its constants by == and !=."""
+    tails = [{"k": "arith", "op": op, "n": 2} for op in AOPS] + [{"k": "div", "n": 2}] + [{"k": "cmp", "op": op, "n": 3} for op in COPS]
+    for backend in (["atlas"] if tier == "quick" else ["atlas", "cms_miniaod"]):
+        for base in ARITH:
+            for tree in [None, "float", "int"]:
+                for deref in ([None] if tier == "quick" else [None, 2]):
+                    sig = mk_value_sig(None, "T0", "m", base, 0, deref, tree)
+                    cols = [{"steps": [call("m")], "fin": t} for t in tails if not (t["k"] == "div" and base == "float")]
+                    yield {"backend": backend, "sigs": [sig], "cols": cols}
+        for base in ["double", "int"]:
+            csig = mk_coll_sig(None, "T0", "c", "T1", 1, "Vec", 1, None)
+            vsig = mk_value_sig(None, "T1", "v", base, 0, 1, "float")
+            yield {"backend": backend, "sigs": [csig, vsig],
+                   "cols": [{"steps": [call("c"), EACH, call("v")], "fin": t} for t in (tails[:4] + tails[-2:])]}
+        for ns in ["NS", "NS.Sub.Deep", "N1.N2.N3.N4.N5"]:
+            e = {"ns": ns, "name": "Color", "values": ["Red", "Blue"]}
+            sig = mk_value_sig(None, "T0", "e", enum_cpp_type(e), 0, None, None)
+            yield {"backend": backend, "sigs": [sig], "enums": [e],
+                   "cols": [{"steps": [call("e")], "fin": {"k": "cmpConst", "op": op, "path": ns.split(".") + ["Color", v]}} for op in ["==", "!="] for v in e["values"]]}
 
 
 def random_case(rng) -> Dict[str, Any]:
@@ -1208,8 +1293,12 @@ def judge_pipeline(ctx, stream: str, cases: List[Dict[str, Any]], compile_all: b
                 ctx.count(f"pipe-col:star-levels={min(o['rhs'].count('(*'), 9)}")
                 if o["rhs"].startswith("static_cast"):
                     ctx.count("pipe-col:tree-type-cast")
-                if "==" in o["rhs"]:
+                if "::" in o["rhs"] and ("==" in o["rhs"] or "!=" in o["rhs"]):
                     ctx.count("pipe-col:enum-compare")
+                elif o["rhs"].endswith(")") and re.search(r"(==|!=|<=|>=|<|>)\d+\)+$", o["rhs"].replace("->", "")):
+                    ctx.count("pipe-col:tail-compare-literal")
+                elif re.search(r"[-+*/]\d+\)+$", o["rhs"]):
+                    ctx.count("pipe-col:tail-arithmetic")
                 if o["warns"]:
                     ctx.count("pipe-col:fallback")
                 if not o["roundtrip"]:
@@ -1601,6 +1690,143 @@ def judge_units(ctx):
                 ctx.disagreement(op, case, a, im)
 
 
+
+# ----------------------------------------------------------------------------------------------
+# extension unit streams: any total indirection, any namespace depth, declarations judged one by one
+# ----------------------------------------------------------------------------------------------
+def _strip_info(i):
+    """A registry entry as the Spec compares it (the `str` rendering is derived)."""
+    if i is None or "err" in i:
+        return i
+    def t(x):
+        return {k: v for k, v in x.items() if k != "str"}
+    r = i["rty"]
+    out = {"kind": r["kind"], "t": t(r["t"])}
+    if r["kind"] == "coll":
+        out["elem"] = t(r["elem"])
+    return {"rty": out, "deref": i["deref"]}
+
+
+def decl_pool(rng) -> List[Dict[str, Any]]:
+    """Declarations of pairwise different (class, method), differing in WHICH optional keys they carry."""
+    k = rng.choice([2, 2, 3, 3, 4])
+    keys = rng.sample([(o, m) for o in CLASSES for m in ("a", "b", "c")], k)
+    out = []
+    for owner, m in keys:
+        r = rng.random()
+        deref = rng.choice([None, None, 0, 1, 2, 3])
+        if r < 0.4:
+            sig = mk_value_sig(rng, owner, m, rng.choice(ARITH), 0, deref, rng.choice([None, None, "float", "int"]))
+        elif r < 0.7:
+            sig = mk_value_sig(rng, owner, m, rng.choice(CLASSES[1:]), rng.choice([0, 1, 2]), deref, None, const=rng.random() < 0.2)
+        else:
+            custom = rng.random() < 0.5
+            sig = mk_coll_sig(rng, owner, m, rng.choice(CLASSES[1:]), rng.choice([0, 1]), "Vec" if custom else None, rng.choice([0, 1, 2]) if custom else 0, deref)
+        out.append(sig_md(sig))
+    return out
+
+
+def decl_lists_directed():
+    """For each optional key: a declaration that carries it next to one that does not (and a third), so that a value
+    surviving from one loop iteration to the next shows."""
+    with_deref = sig_md(mk_value_sig(None, "T0", "m", "T1", 0, 1))
+    with_deref3 = sig_md(mk_coll_sig(None, "T2", "c", "T1", 1, "Vec", 1, 3))
+    with_tree = sig_md(mk_value_sig(None, "T1", "w", "double", 0, None, "float"))
+    plain = sig_md(dict(V_DOUBLE))
+    plain_coll = sig_md(mk_coll_sig(None, "T1", "cc", "T2", 0, None, 0, None))
+    yield [with_deref, plain]
+    yield [with_tree, plain]
+    yield [with_deref3, plain_coll]
+    yield [with_deref, with_tree, plain]
+    yield [with_deref3, with_deref, plain_coll, plain]
+
+
+HOW_LOCAL = ("cpp_types.g_method_type_dict = {}; process_metadata([{'metadata_type': 'add_method_type_info', **md} for md in case.mds]) and read "
+             "g_method_type_dict[type_string][method_name] of `case.declaration`; then the same with the list [case.declaration] alone; ./check C10 --replay <this file>")
+
+
+def judge_ext_units(ctx):
+    rng, tier = ctx.rng, ctx.tier
+    # --- (1) member access for every split d + k = n of every total n = 0..6 (then random totals to 14)
+    acc = [(x, d, n - d) for x in ["x", "(*a)->b()", "p->q(3)"] for n in range(0, 7) for d in range(0, n + 1)]
+    acc += [(rng.choice(["x", "a.b()->c()"]), rng.randint(0, 7), rng.randint(0, 7)) for _ in range(60 if tier == "quick" else 600)]
+    reqs: List[Dict[str, Any]] = []
+    acc_impl = []
+    for x, d, k in acc:
+        im = impl_unit({"op": "access", "x": x, "d": d, "n": k})
+        acc_impl.append(im)
+        reqs.append({"op": "spec_access_shape", "x": x, "n": d + k, "obs": im.get("text", "")})
+    # --- (2) enum constants through namespace nesting 1..8
+    segs = ["xAOD", "Jet", "Sub", "Deep", "Er", "L6", "L7", "L8"]
+    en = [{"op": "enum_obj", "ns": segs[:n], "name": "Color", "v": v} for n in range(1, 9) for v in ("Red", "Blue")]
+    en += [{"op": "enum_obj", "ns": [rng.choice(["A", "B", "NS", "a_b"]) + str(i) for i in range(rng.randint(1, 10))], "name": "K", "v": "K1"} for _ in range(20 if tier == "quick" else 200)]
+    en_impl = [impl_unit(r) for r in en]
+    reqs.extend(en)
+    # --- (3) lists of k <= 4 declarations in EVERY order: each entry is the one the declaration gets alone
+    lists = list(decl_lists_directed()) + [decl_pool(rng) for _ in range(25 if tier == "quick" else 300)]
+    perms = [list(pm) for mds in lists for pm in itertools.permutations(mds)]
+    loc_impl = [impl_unit({"op": "mdlocal", "mds": pm}) for pm in perms]
+    loc_at = len(reqs)
+    for pm, im in zip(perms, loc_impl):
+        reqs.append({"op": "mdlocal", "mds": pm})
+        for it in im.get("items", []):
+            reqs.append({"op": "spec_local", "alone": _strip_info(it["alone"]), "inlist": _strip_info(it["inlist"])})
+    ctx.check_time()
+    ans = ctx.driver(DRIVER, reqs)
+    i = 0
+    for (x, d, k), im in zip(acc, acc_impl):
+        a = ans[i]
+        i += 1
+        ctx.count(f"ext:access-total={min(d + k, 9)}")
+        case = {"kind": "unit", "op": "access", "x": x, "d": d, "n": k}
+        ctx.case(["access-total", x, d, k], d + k > 0, None)
+        if "bad" in a:
+            continue
+        if not a.get("holds", False):
+            ctx.violation(key=f"access:{x}:{d}:{k}", what=f"base_type_member_access on pointer depth {d} with deref_count {k}: the text {im.get('text')!r} does not hold exactly {max(d + k - 1, 0)} "
+                          f"explicit `*` and one `{'->' if d + k else '.'}` (total indirection {d + k}; expected {a.get('chars')!r})", case=case, observed=im, how=HOW_UNIT)
+    for r, im in zip(en, en_impl):
+        a = ans[i]
+        i += 1
+        ctx.count(f"ext:enum-namespace-depth={min(len(r['ns']), 9)}")
+        ctx.case(["enum-obj", r["ns"], r["v"]], len(r["ns"]) > 1, {"stream": "enum-obj", "request": r, "implementation": im} if len(r["ns"]) == 5 and r["v"] == "Red" else None)
+        if "bad" in a:
+            continue
+        case = {"kind": "unit", **r}
+        if "err" in im or im.get("cpp") != a["spec"]:
+            ctx.violation(key="enum-obj:" + ".".join(r["ns"]) + ":" + r["v"], what=f"define_enum({'.'.join(r['ns'])!r}, …).value_as_cpp({r['v']!r}) is not the fully qualified `{a['spec']}` "
+                          f"(namespace nesting depth {len(r['ns'])})", case=case, observed=im, how=HOW_UNIT)
+        elif im.get("cpp") != a["cpp"] or im.get("full") != a["full"] or im.get("depth") != a["depth"]:
+            ctx.disagreement("enum-object", case, a, im)
+    i = loc_at
+    for pm, im in zip(perms, loc_impl):
+        a = ans[i]
+        i += 1
+        ctx.count(f"ext:declaration-list-len={len(pm)}")
+        ctx.case(["mdlocal", pm], True, {"stream": "declaration-orders", "request": pm, "implementation": im} if ctx.dist.get("ext:declaration-list-len=3", 0) == 1 and len(pm) == 3 else None)
+        items = im.get("items", [])
+        sp = ans[i:i + len(items)]
+        i += len(items)
+        if "bad" in a or any("bad" in x for x in sp):
+            continue
+        if "err" in im:
+            ctx.violation(key="mdlocal:" + json.dumps(pm, sort_keys=True), what=f"a list of well-formed method declarations is refused ({im['err']})", case={"kind": "unit", "op": "mdlocal", "mds": pm}, observed=im, how=HOW_LOCAL)
+            continue
+        bad = None
+        for md, it, spj in zip(pm, items, sp):
+            if not spj.get("holds", False) and bad is None:
+                bad = (md, it)
+        if bad is not None:
+            md, it = bad
+            ctx.violation(key="mdlocal:" + json.dumps(pm, sort_keys=True),
+                          what=f"process_metadata: what is registered for {md['type_string']}::{md['method_name']} depends on the OTHER declarations of the list "
+                               f"(inside this list: {json.dumps(_strip_info(it['inlist']))}; declared alone: {json.dumps(_strip_info(it['alone']))})",
+                          case={"kind": "unit", "op": "mdlocal", "mds": pm, "declaration": md}, observed=im, how=HOW_LOCAL)
+        model = [(_strip_info(x["alone"]), _strip_info(x["inlist"])) for x in a.get("items", [])]
+        impl = [(_strip_info(x["alone"]), _strip_info(x["inlist"])) for x in items]
+        if model != impl:
+            ctx.disagreement("process_metadata-per-declaration", {"kind": "unit", "op": "mdlocal", "mds": pm}, model, impl)
+
 # ----------------------------------------------------------------------------------------------
 # known findings
 # ----------------------------------------------------------------------------------------------
@@ -1650,7 +1876,9 @@ def run(ctx):
     thorough = ctx.tier == "thorough"
     # worlds with several enum declarations, through whole queries first (a failing world comes with its query)
     judge_pipeline(ctx, "enum-worlds", list(enum_pipeline_worlds(ctx.tier)), compile_all=thorough, compile_sample=20)
+    judge_ext_units(ctx)
     judge_units(ctx)
+    judge_pipeline(ctx, "tails", list(tail_worlds(ctx.tier)), compile_all=thorough, compile_sample=25)
     ex = list(exhaustive_worlds(ctx.tier)) + list(element_pointer_worlds(ctx.tier))
     judge_pipeline(ctx, "exhaustive", ex, compile_all=thorough, compile_sample=60)
     n = 350 if not thorough else 6000
@@ -1678,7 +1906,12 @@ def run(ctx):
 def search(ctx, broken):
     """A broken obligation or correspondence: hunt for a concrete failing input with the Spec (and g++) as the only judges."""
     sub = _SearchCtx(ctx)
-    cases = list(exhaustive_worlds("thorough")) + list(element_pointer_worlds("thorough")) + list(enum_pipeline_worlds("thorough")) + [random_case(ctx.rng) for _ in range(1500)]
+    judge_ext_units(sub)
+    if sub.violations:  # a unit-level failing input is the smallest there is
+        v = min(sub.violations, key=lambda v: len(json.dumps(v["case"], default=str)))
+        return {"key": v["key"], "what": v["what"], "case": v["case"], "observed": v["observed"], "replay_how": v.get("replay_how", "")}
+    cases = (list(exhaustive_worlds("thorough")) + list(element_pointer_worlds("thorough")) + list(enum_pipeline_worlds("thorough")) + list(tail_worlds("thorough"))
+             + [random_case(ctx.rng) for _ in range(1500)])
     judge_pipeline(sub, "search", cases, compile_all=False, compile_sample=150)
     if not sub.violations:
         judge_sequences(sub, "search", list(exhaustive_sequences("thorough")) + [random_sequence(ctx.rng) for _ in range(300)])
@@ -1752,7 +1985,7 @@ def shrink(ctx, v):
         slim = [s for s in case["sigs"] if s["m"] in used]
         if len(slim) < len(case["sigs"]):
             cands.append({**case, "sigs": slim})
-        if case.get("enums") and not any(col.get("fin", {}).get("k") == "eqConst" for col in case["cols"]) and not any("::" in s.get("base", "") for s in case["sigs"]):
+        if case.get("enums") and not any(col.get("fin", {}).get("k") in ("eqConst", "cmpConst") for col in case["cols"]) and not any("::" in s.get("base", "") for s in case["sigs"]):
             cands.append({**case, "enums": []})
         for cand in cands[:12]:
             f = _fails(ctx, cand)
@@ -1839,9 +2072,22 @@ def replay(ctx, rep) -> int:
             print("spec:", a)
             return 0 if a.get("holds") else 1
         if op == "access":
-            a = ctx.driver(DRIVER, [{"op": "spec_access", "x": req["x"], "d": req["d"], "n": req["n"], "obs": im.get("text", "")}])[0]
-            print("spec:", a)
-            return 0 if a.get("holds") else 1
+            a = ctx.driver(DRIVER, [{"op": "spec_access", "x": req["x"], "d": req["d"], "n": req["n"], "obs": im.get("text", "")},
+                                    {"op": "spec_access_shape", "x": req["x"], "n": req["d"] + req["n"], "obs": im.get("text", "")}])
+            print("spec (closed form, counting form):", a)
+            return 0 if a[0].get("holds") and a[1].get("holds") else 1
+        if op == "mdlocal":
+            req = {"op": "mdlocal", "mds": req["mds"]}
+            rc = 0
+            for md, it in zip(req["mds"], im.get("items", [])):
+                sp = ctx.driver(DRIVER, [{"op": "spec_local", "alone": _strip_info(it["alone"]), "inlist": _strip_info(it["inlist"])}])[0]
+                print(f"{md['type_string']}::{md['method_name']}: alone {json.dumps(_strip_info(it['alone']))} | in the list {json.dumps(_strip_info(it['inlist']))} | spec: {sp}")
+                rc = rc or (0 if sp.get("holds") else 1)
+            return 1 if "err" in im else rc
+        if op == "enum_obj":
+            a = ctx.driver(DRIVER, [req])[0]
+            print("model / spec:", a)
+            return 0 if im.get("cpp") == a.get("spec") else 1
         a = ctx.driver(DRIVER, [req])[0]
         print("model:", json.dumps(a, ensure_ascii=False))
         if op == "enum":
